@@ -587,16 +587,17 @@ def check_reset(model, R, P):
     R.ob(P + '.RESET', z.qualname, ' ; '.join(norm(n) for n in stmts)[:120], ok and not others, 'zero_ must install np.zeros_like(self.data) and nothing else', z.loc)
     for q, coll in ((('synapgrad.nn.modules.Module.zero_grad'), 'self.parameters()'), (('synapgrad.optim.optimizers.Optimizer.zero_grad'), 'self.parameters')):
         fn = model.func(q)
-        loops = [n for n in fn.node.body if isinstance(n, ast.For)]
-        other = [n for n in fn.node.body if not isinstance(n, ast.For) and not (isinstance(n, ast.Expr) and isinstance(n.value, ast.Constant))]
-        ok = len(loops) == 1 and not other and norm(loops[0].iter) == coll
+        cfg = CFG(fn.node)
+        loops = [n for n in body_walk(fn.node) if isinstance(n, ast.For) and norm(n.iter) == coll]
+        ok = len(loops) == 1 and not cfg.conditions(loops[0]) and not cfg.in_loop(loops[0])
         if ok:
             lp = loops[0]
             v = norm(lp.target)
-            cfg = CFG(fn.node)
-            calls = [s for s in ast.walk(lp) if isinstance(s, ast.Expr) and isinstance(s.value, ast.Call) and norm(s.value) == '%s.zero_()' % v]
-            stmts = [s for s in ast.walk(lp) if isinstance(s, ast.stmt) and s is not lp and not isinstance(s, ast.If)]
-            ok = len(calls) == 1 and len(stmts) == 1 and {(t, p) for t, p, _ in facts_at(cfg, calls[0])} == {('%s.requires_grad' % v, True)}
+            calls = [s_ for s_ in ast.walk(lp) if isinstance(s_, ast.Expr) and isinstance(s_.value, ast.Call) and norm(s_.value) == '%s.zero_()' % v]
+            # everything else in the function is control flow only (if / continue / pass / docstring)
+            other = [s_ for s_ in ast.walk(fn.node) if isinstance(s_, ast.stmt) and s_ is not fn.node and s_ is not lp and s_ not in calls
+                     and not isinstance(s_, (ast.If, ast.Continue, ast.Pass)) and not (isinstance(s_, ast.Expr) and isinstance(s_.value, ast.Constant))]
+            ok = len(calls) == 1 and not other and {(t, p) for t, p, _ in facts_at(cfg, calls[0])} == {('%s.requires_grad' % v, True)}
         R.ob(P + '.RESET', q, 'for p in %s: if p.requires_grad: p.zero_()' % coll, ok,
              'zero_grad must reset exactly the owned parameters that require grad (a frozen parameter must not acquire a buffer)', fn.loc)
 
